@@ -6,7 +6,7 @@
    mgh <be> <w> <nc> <shape> <words> <hdrhex> <footerhex>       -> ok <hex>    whole .mgh file
    read <be> <w> <nc> <shape> <offset> <filehex>                -> ok <words in C order> | err short
    mghshape <shape>                                             -> ok <shape> | err refuse
-   decide <has_slope> <has_inter> <mid> <did> <size0> <allzero> <nofinite> <mn> <mx>
+   decide <has_slope> <has_inter> <mid> <did> <size0> <allzero> <nofinite> <hasinf> <mn> <mx>
         -> ok <class> <noscale|scale|err_writer> <route> [<slope> <inter>] | err no_writer   (ids of Tables.dtypes) *)
 let natlist_of_string s = List.map (fun z -> nat_of_int (int_of_z z)) (zlist_of_string s)
 let string_of_natlist l = "[" ^ String.concat "," (List.map (fun n -> string_of_int (int_of_nat n)) l) ^ "]"
@@ -38,10 +38,10 @@ let handle op args = match op, args with
     (match mgh_shape (natlist_of_string sh) with
      | Some s -> "ok " ^ string_of_natlist s
      | None -> "err refuse")
-  | "decide", [hs; hi; mi; di; s0; az; nf; mn; mx] ->
+  | "decide", [hs; hi; mi; di; s0; az; nf; hf; mn; mx] ->
     let find i = List.find (fun t -> int_of_z t.dt_id = int_of_string i) dtypes in
     let m = find mi and d = find di in
-    let info = { size0 = bool_of_string s0; allzero = bool_of_string az; nofinite = bool_of_string nf;
+    let info = { size0 = bool_of_string s0; allzero = bool_of_string az; nofinite = bool_of_string nf; hasinf = bool_of_string hf;
                  imn = z_of_string mn; imx = z_of_string mx } in
     (match make_array_writer (bool_of_string hs) (bool_of_string hi) with
      | None -> "err no_writer"
